@@ -452,8 +452,36 @@ static void runLifecycle(const std::vector<Entry> &reg, const json &job, vt::Tra
     for (int c = 0; c < w.W * w.H; ++c)
         if (w.cellFree(c))
             freeCells.push_back(c);
+    // optional forced queries ("queries": [{start, goal, xs: [cells], xg: [cells]}, ...]) are used, in order, before
+    // random ones: targeted histories (e.g. "the new start lies where an old goal was") need them
+    std::size_t forcedUsed = 0;
     auto pickQuery = [&]() {
         Query q;
+        if (job.contains("queries") && forcedUsed < job["queries"].size())
+        {
+            const json &f = job["queries"][forcedUsed++];
+            auto jx = [&](int c) { return w.cx(c) + (jit.unit() - 0.5) * 0.6; };
+            auto jy = [&](int c) { return w.cy(c) + (jit.unit() - 0.5) * 0.6; };
+            q.start = f["start"];
+            q.goal = f["goal"];
+            q.sx = jx(q.start);
+            q.sy = jy(q.start);
+            q.gx = jx(q.goal);
+            q.gy = jy(q.goal);
+            if (f.contains("xs") && !(e->flags & F_SINGLESTART))
+                for (int c : f["xs"])
+                {
+                    double x = jx(c), y = jy(c);
+                    q.xs.emplace_back(c, x, y);
+                }
+            if (f.contains("xg"))
+                for (int c : f["xg"])
+                {
+                    double x = jx(c), y = jy(c);
+                    q.xg.emplace_back(c, x, y);
+                }
+            return q;
+        }
         // mostly valid queries; the model-determined classes (invalid start/goal, unreachable) occur too
         auto cell = [&]() {
             if (jit.below(12) == 0 || freeCells.empty())
